@@ -199,42 +199,50 @@ Section Driver.
   Definition set_stop (s : lst) (f : float) (g : vec) (x : vec) (G : list vec) (t : sfst) (m : msg) (w : Z) : lst :=
     mklst x f g (s_X s) G (s_mats s) (s_nit s) m true w t.
 
+  (* a failed line search: abort when the memory holds a single point, otherwise reset it and go on *)
+  Definition fail_step (s : lst) (t1 : sfst) : bool * lst :=
+    if (List.length (s_X s) =? 1)%nat then
+      (false, mklst (s_x s) (s_f s) (s_g s) (s_X s) (s_G s) (s_mats s) (s_nit s) MAbnormal false 2 t1)
+    else
+      (true, mklst (s_x s) (s_f s) (s_g s) [last_or (s_X s) []] [last_or (s_G s) []] None (s_nit s + 1) MRestart (s_succ s) (s_warn s) t1).
+
+  (* an accepted step a along d: new iterate, evaluation, update function, stop tests, memory, callback *)
+  Definition accept_step (ft : option float) (s : lst) (a : float) (d : vec) (t1 : sfst) : M ev (bool * lst) :=
+    let f0_old := s_f s in
+    let x := vclip (vaxpy (s_x s) a d) (lb c) (ub c) in
+    '(f0, g, t2) <- sf_fun_and_grad x t1 ;;
+    '(f0, f0_old, g, G, filt) <-
+       match u_upd U with
+       | None => ret (f0, f0_old, g, s_G s, false)
+       | Some u => let r := u x f0 f0_old g (s_X s) (s_G s) in
+                   '(a1, a2, a3, a4) <- call r (EvUpd x f0 f0_old g (s_X s) (s_G s) r) ;; ret (a1, a2, a3, a4, true)
+       end ;;
+    if is_f0_target_reached (div f0 (SF.scale _ _ _ _ t2)) ft then ret (false, set_stop s f0 g x G t2 MTarget 0)
+    else if is_f0_min_change_reached f0 f0_old (ftol c) then ret (false, set_stop s f0 g x G t2 MFtol 0)
+    else
+      let '(X1, G1) := if filt then filter_mem (s_X s) G else (s_X s, G) in
+      let '(X2, G2, m2) := update_mem x g X1 G1 (s_mats s) in
+      let s1 := mklst x f0 g X2 G2 m2 (s_nit s) (s_msg s) (s_succ s) (s_warn s) t2 in
+      match u_cb U with
+      | None => ret (true, mklst x f0 g X2 G2 m2 (s_nit s + 1) (s_msg s) (s_succ s) (s_warn s) t2)
+      | Some cb =>
+          let snap := snapshot s1 (s_nit s + 1) in
+          b <- call (cb snap) (EvCb snap (cb snap)) ;;
+          if b then ret (true, mklst x f0 g X2 G2 m2 (s_nit s + 1) MCallback true (s_warn s) t2)
+          else ret (true, mklst x f0 g X2 G2 m2 (s_nit s + 1) (s_msg s) (s_succ s) (s_warn s) t2)
+      end.
+
+  (* the step handed to the line search *)
+  Definition direction (s : lst) : vec := vsub (search K (s_x s) (s_g s) (s_mats s) (s_nit s)) (s_x s).
+  Definition ls_cap (s : lst) : Z := Z.min (maxls c) (maxfun c - SF.nfev _ _ _ _ (s_sf s)).
+
   (* one pass of the while loop; returns (continue?, state) *)
   Definition body (ft : option float) (s : lst) : M ev (bool * lst) :=
-    let f0_old := s_f s in
-    let xbar := search K (s_x s) (s_g s) (s_mats s) (s_nit s) in
-    let d := vsub xbar (s_x s) in
-    let cap := Z.min (maxls c) (maxfun c - SF.nfev _ _ _ _ (s_sf s)) in
-    '(stp, t1) <- line_search (s_x s) (s_f s) (s_g s) d (s_nit s) cap (s_sf s) ;;
+    let d := direction s in
+    '(stp, t1) <- line_search (s_x s) (s_f s) (s_g s) d (s_nit s) (ls_cap s) (s_sf s) ;;
     match stp with
-    | None =>
-        if (List.length (s_X s) =? 1)%nat then
-          ret (false, mklst (s_x s) (s_f s) (s_g s) (s_X s) (s_G s) (s_mats s) (s_nit s) MAbnormal false 2 t1)
-        else
-          ret (true, mklst (s_x s) (s_f s) (s_g s) [last_or (s_X s) []] [last_or (s_G s) []] None (s_nit s + 1) MRestart (s_succ s) (s_warn s) t1)
-    | Some a =>
-        let x := vclip (vaxpy (s_x s) a d) (lb c) (ub c) in
-        '(f0, g, t2) <- sf_fun_and_grad x t1 ;;
-        '(f0, f0_old, g, G, filt) <-
-           match u_upd U with
-           | None => ret (f0, f0_old, g, s_G s, false)
-           | Some u => let r := u x f0 f0_old g (s_X s) (s_G s) in
-                       '(a1, a2, a3, a4) <- call r (EvUpd x f0 f0_old g (s_X s) (s_G s) r) ;; ret (a1, a2, a3, a4, true)
-           end ;;
-        if is_f0_target_reached (div f0 (SF.scale _ _ _ _ t2)) ft then ret (false, set_stop s f0 g x G t2 MTarget 0)
-        else if is_f0_min_change_reached f0 f0_old (ftol c) then ret (false, set_stop s f0 g x G t2 MFtol 0)
-        else
-          let '(X1, G1) := if filt then filter_mem (s_X s) G else (s_X s, G) in
-          let '(X2, G2, m2) := update_mem x g X1 G1 (s_mats s) in
-          let s1 := mklst x f0 g X2 G2 m2 (s_nit s) (s_msg s) (s_succ s) (s_warn s) t2 in
-          match u_cb U with
-          | None => ret (true, mklst x f0 g X2 G2 m2 (s_nit s + 1) (s_msg s) (s_succ s) (s_warn s) t2)
-          | Some cb =>
-              let snap := snapshot s1 (s_nit s + 1) in
-              b <- call (cb snap) (EvCb snap (cb snap)) ;;
-              if b then ret (true, mklst x f0 g X2 G2 m2 (s_nit s + 1) MCallback true (s_warn s) t2)
-              else ret (true, mklst x f0 g X2 G2 m2 (s_nit s + 1) (s_msg s) (s_succ s) (s_warn s) t2)
-          end
+    | None => ret (fail_step s t1)
+    | Some a => accept_step ft s a d t1
     end.
 
   Fixpoint loop (fuel : nat) (ft : option float) (gt : float) (s : lst) : M ev lst :=
@@ -256,8 +264,12 @@ Section Driver.
 
   Definition fuel0 (nit0 : Z) : nat := Z.to_nat (maxiter c - nit0).
 
-  Definition run : M ev result :=
-    let x := vclip (x0 c) (lb c) (ub c) in
+  (* initialize_X_and_G: np.testing.assert_equal(x, checkpoint.x) (NaN equal to NaN, -0.0 equal to +0.0) *)
+  Definition ck_mismatch : exn :=
+    ("ValueError", "When 'checkpoint' is provided (L-BFGS-B restart), x0 and checkpoint.x should be equal!")%string.
+  Definition ck_ok (x : vec) : bool := match checkpoint c with None => true | Some ck => vsame x (r_x ck) end.
+
+  Definition run_checked (x : vec) : M ev result :=
     let '(X, G) := match checkpoint c with None => ([], []) | Some ck => restore ck end in
     let t0 := SF.init vec float vec float x fone in
     let t0 := match checkpoint c with None => t0 | Some ck => SF.set_counters _ _ _ _ (r_nfev ck) (r_njev ck) t0 end in
@@ -298,4 +310,8 @@ Section Driver.
       s <- loop (fuel0 nit0) ft gt (mklst x f0 g X1 G1 m1 nit0 MStart false 2 t3) ;;
       let s := classify gt s in
       ret (snapshot s (s_nit s)).
+
+  Definition run : M ev result :=
+    let x := vclip (x0 c) (lb c) (ub c) in
+    if ck_ok x then run_checked x else raise ck_mismatch.
 End Driver.
